@@ -54,6 +54,7 @@ type Engine struct {
 	usedAxioms map[string]bool
 	attrIndex  map[string]*TypeAttr
 	attrTypes  map[string]types.Type
+	gaddrs     map[*Term]bool
 	instCache  map[[2]*Term]*Term // (quantifier, instance term) -> instantiated body, shared by all obligations
 }
 
